@@ -208,6 +208,22 @@ Theorem rf_distance_is_definition :
   forall p1 p2 samples, rf_code p1 p2 samples = rf_spec p1 p2 samples.
 Proof. exact rf_code_is_spec. Qed.
 
+(* rf_distance is a function of the two SETS of sample clades: per-node clade lists with the
+   same members give the same distance; in particular a node that repeats an existing clade
+   (a unary node, or a parent whose other children carry no samples) changes nothing, in
+   either argument.  [full; rf_code is rf_of_lists of the per-node clade lists by
+   definition, and is compared with Tree.rf_distance on every run, on tree pairs with
+   unary chains and dangling sample-free siblings] *)
+Theorem rf_distance_counts_sets :
+  (forall l1 l1' l2 l2' : list (list Z),
+      (forall c, In c l1 <-> In c l1') -> (forall c, In c l2 <-> In c l2') ->
+      rf_of_lists l1 l2 = rf_of_lists l1' l2') /\
+  (forall (l1 l2 : list (list Z)) (c : list Z), In c l1 ->
+      rf_of_lists (l1 ++ [c]) l2 = rf_of_lists l1 l2 /\ rf_of_lists l2 (l1 ++ [c]) = rf_of_lists l2 l1) /\
+  (forall p1 p2 samples,
+      rf_code p1 p2 samples = rf_of_lists (clade_list p1 samples) (clade_list p2 samples)).
+Proof. exact rf_sets_all. Qed.
+
 Theorem rf_distance_pinned_refuted :
   exists p1 p2 samples,
     p1 = [1; 2; -1]%Z /\ p2 = [2; 2; -1]%Z /\ samples = [0; 2]%Z /\
